@@ -7,6 +7,7 @@ import (
 	"math/rand"
 	"regexp"
 	"strings"
+	"time"
 
 	jbytes "github.com/jsightapi/jsight-schema-core/bytes"
 	jnum "github.com/jsightapi/jsight-schema-core/json"
@@ -302,7 +303,7 @@ func respell(rng *rand.Rand, neg bool, intd, frac string, maxShift int) string {
 
 func runC13(c *core.Ctx) error {
 	// (1) lemmas
-	lres, err := tlc.Run(tlc.Opts{Module: "Number", Cfg: "Number_lemma.cfg", Workers: 16, Coverage: c.Thorough()})
+	lres, err := tlc.Run(tlc.Opts{Module: "Number", Cfg: "Number_lemma.cfg", Workers: 16, Timeout: 40 * time.Minute})
 	lres.Cleanup()
 	if err != nil {
 		return err
